@@ -1,5 +1,6 @@
 import Nstd.Path.FsCreate
 import Nstd.Path.FsFail
+import Nstd.Path.FsUnlink
 /-
   Property C19, file-system part: theorems about the algorithms of File.cpp / Directory.cpp
   (Nstd/Path/FsLib.lean) over the ASSUMED POSIX semantics of Nstd/Path/Fs.lean, for all worlds
@@ -69,7 +70,51 @@ theorem failed_op_leaves_no_new_file (fs : Fs) :
    fun p => fileUnlink_noNew fs p,
    fun d r => dirUnlink_noNew _ r fs d⟩
 
+/-- Recursive unlink never follows a symbolic link out of its tree: for a plain path (parent chain of
+    real directories; the last component may be anything) whose last component sits at canonical path `d`,
+    Directory::unlink — recursive or not, whatever it returns — leaves every entry outside the tree at
+    `d` exactly as it was, wherever the symbolic links inside the tree point. -/
+theorem unlink_never_follows_symlink_out (fs : Fs) (dir : Bytes) (d : CPath) (recursive : Bool)
+    (hok : NamesOk fs) (hpp : PlainParent fs dir d) :
+    ∀ q, ¬ (d <+: q) → (dirUnlinkTop fs dir recursive).1.get q = fs.get q :=
+  (dirUnlink_frame _ recursive fs dir d hok hpp).out
+
+/-- … and it removes nothing but entries: each entry afterwards was there before. -/
+theorem unlink_only_removes (fs : Fs) (dir : Bytes) (d : CPath) (recursive : Bool)
+    (hok : NamesOk fs) (hpp : PlainParent fs dir d) :
+    ∀ x ∈ (dirUnlinkTop fs dir recursive).1.ents, x ∈ fs.ents :=
+  (dirUnlink_frame _ recursive fs dir d hok hpp).sub
+
+/-- Recursive unlink removes exactly the given tree: when Directory::unlink reports success in a
+    well-formed world, every path in the tree at `d` is gone and every other path is unchanged. -/
+theorem unlink_removes_exactly_tree_partial (fs : Fs) (dir : Bytes) (d : CPath) (recursive : Bool)
+    (hwf : WF fs) (hpp : PlainParent fs dir d) (h : (dirUnlinkTop fs dir recursive).2 = true) :
+    ∀ q, (d <+: q → (dirUnlinkTop fs dir recursive).1.get q = none) ∧
+         (¬ (d <+: q) → (dirUnlinkTop fs dir recursive).1.get q = fs.get q) :=
+  fun q => ⟨dirUnlink_true_gone _ recursive fs dir d hwf hpp h q,
+            (dirUnlink_frame _ recursive fs dir d hwf.names hpp).out q⟩
+
+/-
+OPEN: unlink_removes_exactly_tree — the statement above WITHOUT the hypothesis `h`, i.e. additionally
+  `WF fs → PlainParent fs dir d → fs.get d = some .dir → (dirUnlinkTop fs dir true).2 = true`
+  (recursive unlink of an existing directory tree always succeeds in the model: the fuel
+  `ents.length + 2` bounds the depth, every entry of the tree is reached through `children`).
+  Success is observed on every tree of the correspondence run; it is not proved.
+-/
+
 /-! non-vacuity -/
+/-- a world with a tree `/s/a` (file, sub-directory with a file, link to the outside directory `/o/od`) -/
+def exWorld : Fs :=
+  ⟨[([[115]], .dir), ([[111]], .dir), ([[111], [111, 100]], .dir), ([[111], [111, 100], [120]], .file [88]),
+    ([[115], [97]], .dir), ([[115], [97], [102]], .file [1]), ([[115], [97], [98]], .dir),
+    ([[115], [97], [98], [103]], .file [2]), ([[115], [97], [108]], .link [47, 111, 47, 111, 100])]⟩
+
+example : WF exWorld :=
+  ⟨by unfold NamesOk IsName; decide, by unfold NoDupKeys; decide, by unfold ParentsOk; decide⟩
+example : PlainParent exWorld [97] [[115], [97]] :=
+  ⟨by decide, [], [97], by decide, trivial, by decide, by decide, by decide⟩
+example : (dirUnlinkTop exWorld [97] true).2 = true := by decide
+example : (dirUnlinkTop exWorld [97] true).1.get [[111], [111, 100], [120]] = some (.file [88]) := by decide
 example : (fileRename ⟨[([[115]], .dir)]⟩ [122] [110] true).2 = false := by decide
 example : (fileCopy ⟨[([[115]], .dir), ([[115], [102]], .file [1, 2])]⟩ [102] [103] true .half).2.1 = false := by decide
 example : (fileCopy ⟨[([[115]], .dir), ([[115], [102]], .file [1, 2])]⟩ [102] [103] true .none).2.1 = true := by decide
